@@ -1,5 +1,6 @@
 import OmplModel.Model.Copy
 import OmplModel.Model.CopyKeyed
+import OmplModel.Model.CopyEvolve
 import OmplModel.Driver.Common
 /-! Line-protocol driver for the copy / serialization / storage model (header line `copy`).
 The part of an output line after ` # ` (implementation-only facts) is never produced here. -/
@@ -17,6 +18,7 @@ structure S where
   spaces : List (Nat × Sp) := []
   states : List (Nat × Nat × St) := []     -- sid ↦ (space id, state)
   pd : Option PD := none
+  locks : List (Nat × List Nat) := []      -- space id ↦ names of its locked compounds
 
 def lookup {α} (l : List (Nat × α)) (k : Nat) : Option α :=
   match l.find? (fun e => e.1 == k) with
@@ -206,6 +208,67 @@ def extractDump (g : Graph) (order : List Nat) : String :=
   joinOr ";" (inv.map (fun j =>
     hex (st.states.getD j []) ++ ":" ++ joinOr "." ((st.nbrsOf order j).map toString)))
 
+/-- the edit list of `evolve`: dim <nm> | dimn <nm> <dimension name> | sub <nm> <space> | name <old> <new> | lock <nm> |
+w <nm> <i> | setup | compute -/
+partial def parseSteps : List String → Option (List Step)
+  | [] => some []
+  | "setup" :: r => (parseSteps r).map (Step.setup :: ·)
+  | "compute" :: r => (parseSteps r).map (Step.setup :: ·)
+  | "dim" :: a :: r =>
+    match a.toNat?, parseSteps r with
+    | some a, some rest => some (.edit (.addDim a) :: rest)
+    | _, _ => none
+  | "dimn" :: a :: d :: r =>
+    match a.toNat?, d.toNat?, parseSteps r with
+    | some a, some _, some rest => some (.edit (.addDim a) :: rest)
+    | _, _, _ => none
+  | "sub" :: a :: r =>
+    match a.toNat?, parseSp r with
+    | some a, some (c, r') => (parseSteps r').map (.edit (.addSub a c) :: ·)
+    | _, _ => none
+  | "name" :: a :: b :: r =>
+    match a.toNat?, b.toNat?, parseSteps r with
+    | some a, some b, some rest => some (.edit (.rename a b) :: rest)
+    | _, _, _ => none
+  | "lock" :: a :: r =>
+    match a.toNat?, parseSteps r with
+    | some a, some rest => some (.edit (.lock a) :: rest)
+    | _, _ => none
+  | "w" :: a :: i :: r =>
+    match a.toNat?, i.toNat?, parseSteps r with
+    | some a, some _, some rest => some (.edit (.weight a) :: rest)
+    | _, _, _ => none
+  | _ => none
+
+mutual
+partial def findNode (nm : Nat) : Sp → Option Sp
+  | .compound n cs => if n = nm then some (.compound n cs) else findNodeL nm cs
+  | .wrapper n x => if n = nm then some (.wrapper n x) else findNode nm x
+  | sp => if sp.name = nm then some sp else none
+partial def findNodeL (nm : Nat) : List Sp → Option Sp
+  | [] => none
+  | c :: cs => match findNode nm c with
+    | some x => some x
+    | none => findNodeL nm cs
+end
+
+/-- the harness refuses an edit whose node does not exist or has the wrong kind -/
+def stepLegal (sp : Sp) : Step → Bool
+  | .setup => true
+  | .edit (.addDim nm) => match findNode nm sp with
+    | some (.real _ _) => true
+    | _ => false
+  | .edit (.addSub nm _) => match findNode nm sp with
+    | some (.compound _ _) => true
+    | _ => false
+  | .edit (.rename old _) => (findNode old sp).isSome
+  | .edit (.lock nm) => match findNode nm sp with
+    | some (.compound _ _) => true
+    | _ => false
+  | .edit (.weight nm) => match findNode nm sp with
+    | some (.compound _ _) => true
+    | _ => false
+
 def stepCore (s : S) (ts : List String) : S × String :=
   let bad : S × String := (s, "bad-op")
   match ts with
@@ -308,6 +371,33 @@ def stepCore (s : S) (ts : List String) : S × String :=
           else bad
         | none => bad
       | _, _ => bad
+    | _, _ => bad
+  | "evolve" :: spid :: rest =>
+    -- a space that was set up changes and is set up again; its states are released
+    match spid.toNat?, parseSteps rest with
+    | some spid, some steps =>
+      match lookup s.spaces spid with
+      | some sp =>
+        if (match s.pd with | some pd => pd.space == spid | none => false) then bad
+        else
+          let o0 : SpObj := { cur := sp, snap := some sp, locked := (lookup s.locks spid).getD [] }
+          -- run step by step; an illegal edit makes the whole line ill-formed
+          let r := steps.foldl (fun (acc : Option SpObj) st =>
+            match acc with
+            | some o => if stepLegal o.cur st then some (o.step st) else none
+            | none => none) (some o0)
+          match r with
+          | some o =>
+            match o.snap with
+            | some tab =>
+              -- the tables printed are the cached ones (`snap`); after a final setup they are those of `cur`
+              ({ s with spaces := insert s.spaces spid o.cur, locks := insert s.locks spid o.locked,
+                        states := s.states.filter (fun e => e.2.1 != spid) },
+               if tab.name = o.cur.name && o.valueLocations = valueLocationsF o.cur && o.substates = substateLocs o.cur
+               then spaceLine s.fixed o.cur else "stale-tables")
+            | none => bad
+          | none => bad
+      | none => bad
     | _, _ => bad
   | "ssm" :: spid :: _seed :: rest =>
     -- GraphStateStorage (StateStorageWithMetadata<vector<size_t>>): states + one metadata vector per state
